@@ -9,6 +9,7 @@ package main
 // race detector monitors the same executions.
 
 import (
+	"os"
 	"strings"
 	"encoding/json"
 	"fmt"
@@ -288,7 +289,7 @@ func init() {
 			// whatever that kind of statement keeps outside the statement is used by several goroutines at once
 			theme := -1
 			if r.Intn(2) == 0 {
-				theme = []int{1, 2, 3, 5, 5, 100, 101, 102, 4, 0, 103, 104, 104, 105}[r.Intn(14)]
+				theme = []int{1, 2, 3, 5, 5, 100, 101, 102, 4, 0, 103, 104, 104, 105, 106, 106}[r.Intn(16)]
 			}
 			for g := 0; g < ng; g++ {
 				reg := r.Intn(16)
@@ -297,12 +298,12 @@ func init() {
 				n := Field{E: ACall("int", AVal()), Nm: "n"}
 				var st *Stmt
 				raw := ""
-				kind := r.Intn(17)
+				kind := r.Intn(18)
 				if kind == 10 {
 					kind = 5
 				}
 				if kind >= 11 {
-					kind += 89 // 100 .. 105: readers of a different sort (below)
+					kind += 89 // 100 .. 106: readers of a different sort (below)
 				}
 				if theme >= 0 && g < 3 {
 					kind = theme
@@ -355,7 +356,8 @@ func init() {
 				case 100:
 					// a statement cut off in the middle: refused; the caller binds ITS query to the error and prints it
 					raw = []string{"select * where key ^= 'r%02d' &", "select * where key ^= 'r%02d' | value in", "put ('r%02dk'", "select * where key = 'r%02d' & !",
-						"select key as where key ^= 'r%02d'", "delete where key ^= 'r%02d' limit", "select * where nosuchfn(key) = 'r%02d'", "select * where key ^= 'r%02d' and (value = 'x'"}[r.Intn(8)]
+						"select key as where key ^= 'r%02d'", "delete where key ^= 'r%02d' limit", "select * where nosuchfn(key) = 'r%02d'", "select * where key ^= 'r%02d' and (value = 'x'",
+						"select key where key ^= 'r%02d' & count(value) > 1", "select key, value where key ^= 'r%02d' & sum(int(value)) = 3"}[r.Intn(10)]
 					raw = fmt.Sprintf(raw, reg)
 					st = &Stmt{Kind: "select", Where: kpre} // placeholder for the record (kind select: no effect on the store)
 				case 101:
@@ -365,6 +367,11 @@ func init() {
 				case 102:
 					st = &Stmt{Kind: "select", Fields: []Field{{E: ACall("group_concat", AIdx(ACall("json", AVal()), AStr("a")), AStr(",")), Nm: "as"}, {E: ACall("count", AInt(1)), Nm: "c"}},
 						Where: ABin("^=", AKey(), AStr(fmt.Sprintf("j%02d", reg)))}
+				case 106:
+					// Boolean literals as operands (left of = / !=, under !): constants every statement has of its own
+					w := []*Node{ABin("=", ABool(true), ACall("is_int", AVal())), ABin("!=", ABool(false), ABin(">", ACall("int", AVal()), AInt(2))),
+						ANot(ABin("=", ABool(false), ACall("is_int", AKey()))), ABin("=", ABin("^=", AKey(), pre), ABool(true))}[r.Intn(4)]
+					st = &Stmt{Kind: "select", Where: ABin("&", kpre, w)}
 				case 105:
 					// constant calls that differ only in where their quotes sit: join('-', 'a', 'b') and join("-', 'a", 'b')
 					// (nothing derived from the printed form of one statement may serve another)
@@ -460,7 +467,27 @@ func init() {
 			if aloneFirst {
 				runAlone()
 			}
-			log, results, _, _ := runConcurrent(sp, texts, nil, bsz, modes)
+			type concOut struct {
+				log     []Event
+				results []concResult
+			}
+			ch := make(chan concOut, 1)
+			go func() {
+				l, rs, _, _ := runConcurrent(sp, texts, nil, bsz, modes)
+				ch <- concOut{l, rs}
+			}()
+			var log []Event
+			var results []concResult
+			select {
+			case co := <-ch:
+				log, results = co.log, co.results
+			case <-time.After(60 * time.Second):
+				// the statements of this round block each other (or one never returns): nothing more can be run in this process
+				out.Finding(Finding{Prop: c.prop, Kind: "concurrent-statements-never-finish", CaseID: id, Query: q, Detail: "the round did not finish within 60s"})
+				out.Stats.Evaluations++
+				out.Close()
+				os.Exit(0)
+			}
 			if !aloneFirst {
 				runAlone()
 			}
